@@ -10,7 +10,7 @@ from . import runcommon as rc
 
 class C05(Prop):
     id = "C05"
-    contract_modules = ["lexer", "transpiler"]
+    contract_modules = ["lexer", "transpiler", "arith"]
     extra_keys = ["vyxal/lexer.py::tokenise", "vyxal/transpile.py::transpile_token", "number_token_is_digits"]
     trusted_base = ["CPython / sympy: sympy.Rational(\"<digits>.<digits>\") is exactly digits/10^k and sympy.nsimplify(\"<digits>\") is exactly that integer (conformance-sampled, not proved)", "z3 5.1 / cvc5 1.0.3 (unsat answers)", "textwrap.indent only adds leading spaces"]
     paper_steps = ["tokenise == lex (proved): a literal is scanned as the maximal prefix allowed by numok, a leading 0 stands alone, a second point starts a new number (lemmas); transpile_token (proved): a plain decimal literal is lowered to sympy.Rational(\"<lit>\"), an integer literal to sympy.nsimplify(\"<lit>\"); the denotation of those two library calls is the assumed, sampled part"]
